@@ -21,6 +21,7 @@ func C15(c *Ctx) {
 	c.R.Rule("C15-R5", "E6", "the copy the store keeps of a reported spec source is faithful", 1)
 	c.shareRule("C09", "C09-R2", "C15-R9", "what a script returns is stored as it will be read back: bindings are brought into their JSON form before they become the state")
 	c.shareRule("C10", "C10-R2", "C15-R12", "a live machine's bindings change only through a reported transition: nothing a script is given shares structure with them")
+	c.shareRule("C14", "C14-R10", "C15-R16", "every result, with the changes it reports, is handed to the consumer: the hand-off is under no condition that arises after processing (no give-up on a slow consumer)")
 	c.R.Rule("C15-R15", "E1", "SetMachine installs the state it is given as it is", 1)
 	c15SetMachineInstallsAsGiven(c, "C15-R15")
 	c.R.Rule("C15-R14", "E3", "an entry leaves the report only as a duplicate, and none of its fields is cleared", 3)
